@@ -365,6 +365,11 @@ func (c *V1) Do(op Op) (out Outcome) {
 		if op.Rev {
 			in.ScanIndexForward = aws.Bool(false)
 		}
+		if op.Paginate {
+			return c.pages(op, fin, func(fn func(items []map[string]*v1ddb.AttributeValue) bool) error {
+				return c.C.QueryPages(in, func(page *v1ddb.QueryOutput, last bool) bool { return fn(page.Items) })
+			})
+		}
 		res, err := c.callQuery(in)
 		o := fin(err)
 		if err == nil {
@@ -395,6 +400,11 @@ func (c *V1) Do(op Op) (out Outcome) {
 		}
 		if op.TotalSegments > 0 {
 			in.Segment, in.TotalSegments = aws.Int64(int64(op.Segment)), aws.Int64(int64(op.TotalSegments))
+		}
+		if op.Paginate {
+			return c.pages(op, fin, func(fn func(items []map[string]*v1ddb.AttributeValue) bool) error {
+				return c.C.ScanPages(in, func(page *v1ddb.ScanOutput, last bool) bool { return fn(page.Items) })
+			})
 		}
 		res, err := c.callScan(in)
 		o := fin(err)
@@ -736,4 +746,42 @@ func v1UpdateInput(op Op) *v1ddb.UpdateTableInput {
 		in.BillingMode = aws.String(op.Billing)
 	}
 	return in
+}
+
+// pages runs one of the SDK v1 pagers (QueryPages / ScanPages): Items holds all pages, Count the number of pages;
+// NotImpl when the method is the nil embedded interface's.
+func (c *V1) pages(op Op, fin func(error) Outcome, run func(fn func(items []map[string]*v1ddb.AttributeValue) bool) error) (o Outcome) {
+	o = Outcome{Class: ClsOK}
+	var err error
+	notImpl := false
+	func() {
+		defer func() {
+			if r := recover(); r != nil {
+				if re, ok := r.(error); ok && strings.Contains(re.Error(), "nil pointer dereference") && PanicInPromotedMethod() {
+					notImpl = true
+					return
+				}
+				panic(r)
+			}
+		}()
+		err = run(func(items []map[string]*v1ddb.AttributeValue) bool {
+			o.Count++
+			for _, it := range items {
+				o.Items = append(o.Items, NormalizeEmpty(ItemFromV1(it)))
+			}
+			if op.FailAfterPage > 0 && int(o.Count) == op.FailAfterPage {
+				v1client.EmulateFailure(c.C, v1client.FailureCondition(op.Fail))
+			}
+			return op.MaxPages == 0 || int(o.Count) < op.MaxPages
+		})
+	}()
+	if notImpl {
+		return Outcome{Class: ClsNotImpl}
+	}
+	if err != nil {
+		f := fin(err)
+		f.Count, f.Items = o.Count, o.Items
+		return f
+	}
+	return o
 }
